@@ -254,7 +254,9 @@ def _run_shard(mod_name, tier, seed, n_cases, shard_idx, shrink_budget_s, collec
     collected = {}  # signature -> [count, smallest desc, violation json]
 
     # enumerated catalogue first (shard 0 takes slice i::n)
-    n_shards = mod.TIERS[tier][0]
+    n_shards = int(os.environ.get("VERIF_NSHARDS") or mod.TIERS[tier][0])
+    from vlib import gen as _gen
+    _gen.STRATUM = (shard_idx, n_shards, int(seed) // 1000)  # (shard seeds are VERIF_SEED*1000 + shard)
     if hasattr(mod, "extra_cases"):
         for i, desc in enumerate(mod.extra_cases(tier)):
             if i % n_shards != shard_idx:
@@ -292,25 +294,36 @@ def _run_shard(mod_name, tier, seed, n_cases, shard_idx, shrink_budget_s, collec
             raise v
 
     phases = [Phase.generate] if (collect or shrink_budget_s <= 0) else [Phase.generate, Phase.shrink]
-    test = given(mod.strategy())(body)
-    test = settings(
-        max_examples=n_cases, database=None, deadline=None, derandomize=False,
-        report_multiple_bugs=False, phases=phases, print_blob=False,
-        suppress_health_check=[HealthCheck.too_slow, HealthCheck.data_too_large,
-                               HealthCheck.large_base_example],
-    )(test)
-    test = hypothesis.seed(seed)(test)
-    try:
-        test()
-    except Violation:
-        desc, v = state["last_fail"]
-        stats.violations.append({"desc": desc, "violation": v.to_json(), "shrunk": len(phases) > 1})
-    except hypothesis.errors.Flaky as e:  # pragma: no cover
-        if state["last_fail"] is not None:
+    # Stratification: Hypothesis' sampled_from is far from uniform over a few hundred cases (2 vs 67 cases were observed for
+    # two classes of one shard).  When the module's strategy takes the model class as an argument, every shard runs its
+    # own slice of mod.CLASSES one class at a time, each with an equal share of the shard's budget.
+    import inspect
+    strata = [None]
+    if hasattr(mod, "CLASSES") and "cls" in inspect.signature(mod.strategy).parameters:
+        strata = _gen.stratum(mod.CLASSES)
+    per = -(-n_cases // len(strata))
+    for j, cls in enumerate(strata):
+        state.update(first_fail_t=None, cache={}, last_fail=None)
+        test = given(mod.strategy() if cls is None else mod.strategy(cls))(body)
+        test = settings(
+            max_examples=per, database=None, deadline=None, derandomize=False,
+            report_multiple_bugs=False, phases=phases, print_blob=False,
+            suppress_health_check=[HealthCheck.too_slow, HealthCheck.data_too_large,
+                                   HealthCheck.large_base_example],
+        )(test)
+        test = hypothesis.seed(seed * 101 + j)(test)
+        try:
+            test()
+        except Violation:
             desc, v = state["last_fail"]
-            stats.violations.append({"desc": desc, "violation": v.to_json(), "shrunk": False,
-                                     "note": "flaky during shrinking: " + str(e)[:200]})
-        else:
+            stats.violations.append({"desc": desc, "violation": v.to_json(), "shrunk": len(phases) > 1})
+            break
+        except hypothesis.errors.Flaky as e:  # pragma: no cover
+            if state["last_fail"] is not None:
+                desc, v = state["last_fail"]
+                stats.violations.append({"desc": desc, "violation": v.to_json(), "shrunk": False,
+                                         "note": "flaky during shrinking: " + str(e)[:200]})
+                break
             raise
     out = stats.to_json()
     if collect:
@@ -422,6 +435,7 @@ def run_check(prop_id, tier, seed, collect=False, shards_override=None, cases_ov
     import multiprocessing as mp
     from concurrent.futures import ProcessPoolExecutor
 
+    os.environ["VERIF_NSHARDS"] = str(n_shards)
     jobs = [(mod_name, tier, seed * 1000 + i, n_cases, i, shrink_budget, collect) for i in range(n_shards)]
     if n_shards == 1:
         results = [run_shard(*jobs[0])]
